@@ -111,7 +111,8 @@ pub fn judge(t: &Tree, hunk: usize, scratch: &Scratch, counters: &[AtomicU64; 2]
 
 pub fn run(report: &Report, budget: &Budget) {
     let thorough = report.thorough();
-    let shapes = gen::shapes(&NAMES, &[K::Dir, K::File], if thorough { 4 } else { 3 }, 3);
+    let kinds: &[K] = if thorough { &[K::Dir, K::File, K::Link] } else { &[K::Dir, K::File] };
+    let shapes = gen::shapes(&NAMES, kinds, if thorough { 4 } else { 3 }, 3);
     let scratches: Vec<Scratch> = (0..crate::util::n_workers()).map(|_| Scratch::new("c12")).collect();
     let counters = [AtomicU64::new(0), AtomicU64::new(0)];
     let done = par_for(shapes.len(), budget, |w, i| {
